@@ -253,12 +253,21 @@ def scenario(ctx, servertype, commtimeout, poolsize, acts1, acts2, case):
         if not rd.loop_exc:
             witness_round()
             # a new client afterwards
-            fresh = rd.proxy()
-            try:
-                fresh._pyroBind()
-                r = fresh.run({"token": 999})
-            except Exception as x:
-                r = "raised %s: %s" % (type(x).__name__, str(x)[:100])
+            # hostile connections may still sit in the listen backlog and take the free workers for a moment when they
+            # are accepted: a refusal "no free workers" is the pool doing its job (C18), so the new client retries
+            t0 = time.time()
+            while True:
+                fresh = rd.proxy()
+                try:
+                    fresh._pyroBind()
+                    r = fresh.run({"token": 999})
+                except Exception as x:
+                    r = "raised %s: %s" % (type(x).__name__, str(x)[:100])
+                    if "no free workers" in str(x) and time.time() - t0 < DEADLINE and not rd.loop_exc:
+                        fresh._pyroRelease()
+                        time.sleep(0.005)
+                        continue
+                break
         if rd.loop_exc or rd.loop_returned or not rd.thread.is_alive():
             fails.insert(0, ("real:loop-stopped:" + servertype, "%s server (real unix sockets): requestLoop() was left: %s"
                              % (servertype, rd.loop_exc or "returned")))
